@@ -214,3 +214,54 @@ func HarnessC06DrainOnCancel() {
 	}
 	zzverif.Reached("c06-drain-end")
 }
+
+// HarnessC06AfterOverflow: the documented drop-on-overflow happens once (a callback is stuck
+// while 67 versions are installed), then callbacks keep up again. A registration with a serial
+// that is one version stale must still get its catch-up call: the callback goroutine's idea of
+// the last announced version must not lag behind because announcements were dropped earlier.
+func HarnessC06AfterOverflow() {
+	verifyLog = nil
+	def := hcfg{}
+	src := &hwsrc{hsrc{name: "s0", init: hval{setA: true, a: 0}}}
+	ctx, cancel := context.WithCancel(context.Background())
+	defer cancel()
+	block := make(chan struct{})
+	first := true
+	p := Params[hcfg]{OnNewConfig: func(context.Context, *hcfg, *hcfg) {
+		if first {
+			first = false
+			<-block
+		}
+	}}
+	d, err := p.Config(ctx, &def, src)
+	if err != nil {
+		zzverif.Fail("C04 Config failed on a valid stack")
+		return
+	}
+	install := func(i int) {
+		e := src.wa.BlockingReportNewValue(ctx, mkValue(src.t, hval{setA: true, a: int64(i)}))
+		zzverif.Assert(e == nil && d.View().A == int64(i), "C08 a blocked callback stopped new configs from being installed")
+		zzverif.Quiesce() // one version at a time: the announcement is queued (or dropped) before the next report
+	}
+	for i := 1; i <= 67; i++ {
+		install(i)
+	}
+	close(block)
+	zzverif.Quiesce()
+	install(68)
+	zzverif.Quiesce()
+	cfg68, ser68 := d.ViewVersion()
+	install(69)
+	zzverif.Quiesce()
+	var calls []struct{ old, new *hcfg }
+	u := d.RegisterCallback(ctx, ser68, func(_ context.Context, old, new *hcfg) {
+		calls = append(calls, struct{ old, new *hcfg }{old, new})
+	})
+	zzverif.Assert(u != nil, "C08 RegisterCallback returned nil with a live context")
+	zzverif.Quiesce()
+	zzverif.Assert(len(calls) == 1 && calls[0].old == cfg68 && calls[0].new.A == 69, "C06 a registration with a stale serial got no catch-up call although a newer version had been announced (after an earlier overflow)")
+	install(70)
+	zzverif.Quiesce()
+	zzverif.Assert(len(calls) == 2 && calls[1].new.A == 70 && calls[1].old.A == 69, "C06 after the catch-up the next version was not delivered with its predecessor")
+	zzverif.Reached("c06-overflow-end")
+}
